@@ -296,6 +296,10 @@ class Check:
             closed = out.count("Closed under the global context")
             ax = re.findall(r"^Axioms:\n((?:.+\n)+)", out, re.M)
             assum.append({"file": f, "closed": closed, "axioms": [a.strip() for a in ax]})
+            if ax:
+                # the development uses no axiom at all (not even the standard library's)
+                ok = False
+                err += "Print Assumptions reports axioms in %s: %s" % (f, ax[0][:500])
         # forbidden words anywhere in the development
         rc, out = sh(r"grep -nE '\b(Admitted|admit|Axiom|Parameter|Conjecture|Abort)\b|Unset Guard|bypass_check|type-in-type' "
                      r"theories/*.v | grep -v '^theories/[A-Za-z0-9_]*.v:[0-9]*: *(\*' || true", cwd=COQ)
